@@ -4,6 +4,10 @@ ProbeMap.tla  (UInt64Map, literal)  : TLC exhaustive + every-edge replay + simul
 SegCache.tla  (SegmentUInt64Map + cache.Cache) : TLC exhaustive over writer interleavings,
               TLC-chosen schedules forced on the real cache through the verif gate hook,
               recorded concurrent traces validated by Trace_SegCache.
+ExpCache.tla  (PositiveCache / NegativeCache: load + expiry cleanup, Set, Remove, clock) : TLC exhaustive with
+              mutant twins, TLC-chosen batches steered through the segment locks, histories judged by Trace_ExpMap.
+LimConc.tla   (LimStore + several clients inside LimiterStore.Get) : TLC exhaustive with mutant twins, TLC-chosen
+              batches forced through the store's own lock, histories judged by Trace_LimConc.
 """
 import json
 import os
@@ -92,6 +96,20 @@ def run(ctx, replay):
         "real keys are searched so that primaryIndex(key)&7 and &15 equal the model's ideal slots (overlay shim VerifPrimaryIndex)",
         "tables above 16 slots are reached only by the trace direction",
     ]
+    # development / triage switch: VERIF_C16_ONLY=exp,limconc runs only the named tiers; a recorded violation of
+    # one of the gap tiers is replayed by running that tier alone (vf.main restored its seed and tier)
+    only = [x for x in os.environ.get("VERIF_C16_ONLY", "").split(",") if x]
+    if replay and not only:
+        try:
+            with open(replay) as f:
+                drv = (json.load(f).get("replay") or {}).get("driver")
+        except Exception:
+            drv = None
+        only = {"expcache": ["exp"], "limconc": ["limconc"]}.get(drv, [])
+    if only:
+        for name in only:
+            {"exp": expcache, "limconc": limconc, "linmap": linmap, "limstore": limstore}[name](ctx, thorough)
+        return
     # ---- ProbeMap ------------------------------------------------------
     probemap_graph(ctx, "MC_Cluster8.cfg", 4, True, 600, shapes=4)
     probemap_sim(ctx, "MC_Wrap5.cfg", 5, True, num=300 if not thorough else 3000, depth=30, shapes=2)
@@ -102,6 +120,19 @@ def run(ctx, replay):
     segcache(ctx, thorough)
     linmap(ctx, thorough)
     limstore(ctx, thorough)
+    # gap tiers (seeded C16-r3-2 / C16-r3-3): the answer cache's sub-caches and concurrent limiter-store clients
+    # (independent of one another and steered by lock parking, not by timing: run side by side)
+    from concurrent.futures import ThreadPoolExecutor
+    with ThreadPoolExecutor(2) as ex:
+        fs = [ex.submit(expcache, ctx, thorough), ex.submit(limconc, ctx, thorough)]
+        errs = []
+        for f in fs:
+            try:
+                f.result()
+            except vf.MachineryError as e:
+                errs.append(e)
+        if errs:
+            raise errs[0]
 
 
 SEG_MODELS = {
@@ -283,3 +314,334 @@ def limstore(ctx, thorough, prefix=""):
             ctx.log("DRIFT LimStore %s: trace matched %d of %d lines" % (regime, r.depth - 1, nlines))
         else:
             ctx.cov["traces_validated_against_impl"] += len(seqs)
+
+
+# ---------------------------------------------------------------------------------------------------------
+# ExpCache tier: middleware/cache.PositiveCache / NegativeCache (Get with expiry cleanup, Set, Remove)
+# ---------------------------------------------------------------------------------------------------------
+EXP_DEAD = [1, 2]
+EXP_NENTS = 6
+EXP_MAXPROCS = 8         # Trace_ExpMap.cfg
+
+
+def exp_groups(beh):
+    """One SpecBatched behaviour of MC_Exp.tla -> groups of calls for TestExpCacheBatches.  A batch (conc) is the
+    stretch during which some reader sits between Load and Cleanup: its Gets and the writer calls made meanwhile."""
+    groups, batch, spill = [], None, []
+    for _, st in beh[1:]:
+        o, ph = st["out"], st["ph"]
+        a = o["a"]
+        if a == "cleanup":
+            op = None                                  # second half of a Get that is already in the batch
+        elif a in ("get", "load"):
+            op = {"op": "get", "p": o["r"], "k": o["k"], "e": 0}
+        elif a in ("set", "rem"):
+            op = {"op": a, "p": 0, "k": o["k"], "e": o["e"]}
+        elif a == "exp":
+            op = {"op": "exp", "p": 0, "k": 0, "e": o["e"]}
+        else:
+            raise vf.MachineryError("ExpCache behaviour: unknown step %r" % (o,))
+        if batch is None and ph != "open":
+            batch, spill = [], []
+        if batch is not None:
+            if op is not None:
+                # every call of a batch runs on its own goroutine (a reader of the model may make several Gets
+                # while another one sits between Load and Cleanup): history proc ids 1..EXP_MAXPROCS
+                if len(batch) < EXP_MAXPROCS:
+                    op["p"] = len(batch) + 1
+                    batch.append(op)
+                else:
+                    op["p"] = 1
+                    spill.append({"conc": False, "ops": [op]})
+            if ph == "open":
+                groups.append({"conc": len(batch) > 1, "ops": batch})
+                groups += spill
+                batch = None
+            continue
+        if op is not None:
+            op["p"] = 1
+            groups.append({"conc": False, "ops": [op]})
+    if batch:
+        groups.append({"conc": len(batch) > 1, "ops": batch})
+        groups += spill
+    return groups
+
+
+def exp_lost_entry(rlines, stuck):
+    """Best-effort naming of the entry a rejected quiescent line misses: stored last under its key, never expired,
+    no Remove of the key invoked after it."""
+    if stuck.get("t") != "q":
+        return ""
+    objs = [json.loads(x) for x in rlines]
+    dead = set(objs[0].get("dead") or [])
+    out = []
+    for k, have in enumerate(stuck.get("raw") or [], start=1):
+        last, gone = 0, set(dead)
+        for o in objs:
+            if o is stuck or (o["t"] == "q" and o == stuck):
+                break
+            if o["t"] == "exp":
+                gone.add(o["a"])
+            elif o["t"] == "inv" and o.get("k") == k and o["op"] == "set":
+                last = o["a"]
+            elif o["t"] == "inv" and o.get("k") == k and o["op"] == "rem":
+                last = 0
+        if last and last not in gone and have != last:
+            out.append("key %d holds %s although entry %d was stored last under it, is within its lifetime and was "
+                       "never removed" % (k, have or "nothing", last))
+    return "; ".join(out)
+
+
+def expcache(ctx, thorough, prefix=""):
+    """ExpCache.tla <-> the answer cache's positive / negative sub-caches: exhaustive interleaving model (the code's
+    compare-and-delete cleanup passes, the unconditional-remove mutant fails), TLC-chosen batches steered on the real
+    sub-caches through the segment locks, the recorded histories judged by Trace_ExpMap.tla."""
+    from concurrent.futures import ThreadPoolExecutor
+    ctx.spec_dir("SegCache")
+
+    def mc(cfg, must):
+        return ctx.tlc("SegCache", "MC_Exp.tla", cfg, workers=4, timeout=600, heap="3g", must_pass=must,
+                       count=must, tag=None if must else "mutant-must-fail")
+    with ThreadPoolExecutor(3) as ex:
+        fs = [ex.submit(mc, "MC_Exp_cad.cfg", True), ex.submit(mc, "MC_Exp_remove.cfg", False),
+              ex.submit(mc, "MC_Exp_remove_id.cfg", False)]
+        rs = [f.result() for f in fs]
+    for r, cfg, want in ((rs[1], "MC_Exp_remove", "FreshStays"), (rs[2], "MC_Exp_remove_id", "CleanupIdentity")):
+        if r.violated != want:
+            raise vf.MachineryError("%s: expected %s to fail, got %r" % (cfg, want, r.violated))
+    behs = ctx.tlc_behaviours("SegCache", "MC_Exp.tla", "Sim_Exp.cfg", num=90 if not thorough else 1500, depth=30,
+                              timeout=600)
+    seen, scripts = set(), []
+    for b in behs:
+        g = exp_groups(b)
+        k = json.dumps(g, sort_keys=True)
+        if g and k not in seen:
+            seen.add(k)
+            scripts.append(g)
+    trace = os.path.join(ctx.scratch, "expcache.ndjson")
+    inp = {"nk": 2, "nents": EXP_NENTS, "dead": EXP_DEAD, "behaviours": scripts, "kinds": ["positive", "negative"],
+           "traceOut": trace}
+    res = ctx.go_driver("./c16", "TestExpCacheBatches", inp, name="expcache", timeout=900)
+    ctx.take_driver_result(res, prefix + "[ExpCache] ")
+    c = res.get("counters", {})
+    if res.get("skipped"):
+        raise vf.MachineryError("ExpCache batches stalled: %s" % res["skipped"][:3])
+    # vacuity: enough batches in which an expiry cleanup really ran after a fresh Set had been published
+    if c.get("batches_steered", 0) < 20:
+        raise vf.MachineryError("ExpCache: too few steered batches (%s): vacuous" % c)
+    lines = open(trace).read().splitlines()
+    ok, r = ctx.tlc_trace("SegCache", "Trace_ExpMap.tla", "Trace_ExpMap.cfg", trace, timeout=1800, deque=False)
+    m = re.search(r'"expmap-high-water", (\d+), (\d+)', r.out)
+    if not m:
+        raise vf.MachineryError("Trace_ExpMap did not reach its postcondition\n" + "\n".join(r.out.splitlines()[-30:]))
+    hw, total = int(m.group(1)), int(m.group(2))
+    info = {"behaviours": len(scripts), "counters": c, "lines": total, "explained": min(hw - 1, total) if hw else 0,
+            "tlc_states": r.distinct}
+    ctx.cov["replay"]["expcache"] = info
+    ctx.log("Trace_ExpMap: %d of %d lines explained, %d states; %s" % (info["explained"], total, r.distinct, c))
+    for s in scripts:
+        ctx._distinct.add("exp:" + json.dumps(s, sort_keys=True))
+    if ok:
+        ctx.cov["traces_validated_against_impl"] += c.get("rounds", 0)
+        ctx.cov["evaluations"] += c.get("calls", 0)
+        # binding: a falsified observation must be rejected
+        objs = [json.loads(x) for x in lines]
+        for o in objs:
+            if o["t"] == "q" and any(o["raw"]):
+                o["raw"] = [0 for _ in o["raw"]]
+                break
+        else:
+            raise vf.MachineryError("tamper test: no quiescent line with a stored entry in the history")
+        bad = os.path.join(ctx.scratch, "expcache_tampered.ndjson")
+        with open(bad, "w") as f:
+            for o in objs:
+                f.write(json.dumps(o) + "\n")
+        okb, _ = ctx.tlc_trace("SegCache", "Trace_ExpMap.tla", "Trace_ExpMap.cfg", bad, timeout=1800, deque=False)
+        if okb:
+            raise vf.MachineryError("tamper test: Trace_ExpMap accepted a falsified history (binding lost)")
+        info["tamper_rejected"] = True
+        return
+    k = min(hw, total)
+    stuck = json.loads(lines[k - 1])
+    rnd = stuck.get("round")
+    rlines = [x for x in lines if json.loads(x).get("round") == rnd]
+    head = json.loads(rlines[0])
+    detail = exp_lost_entry(rlines, stuck)
+    if stuck["t"] == "q":
+        what = ("with no call in flight the table holds %s (len %s), which no order of the recorded calls explains: "
+                % (stuck.get("raw"), stuck.get("len"))) + (detail or (
+                "an entry that was stored last under its key, is within its lifetime and was never removed is gone, or an "
+                "entry left the table other than through Remove or the expiry cleanup of the reader that loaded it"))
+        key = "expcache/quiescent"
+    else:
+        what = ("the result of %s by goroutine %s (ok=%s v=%s) is not explained by any placement of the concurrent calls: "
+                "the key does not yield the entry most recently stored under it" % (stuck.get("op"), stuck.get("p"),
+                                                                                 stuck.get("ok"), stuck.get("v")))
+        key = "expcache/" + str(stuck.get("op"))
+    ctx.violation(key, "%s[ExpCache %s] %s" % (prefix, head.get("kind"), what),
+                  {"driver": "expcache", "round": rnd, "kind": head.get("kind"), "history": rlines, "seed": ctx.seed})
+
+
+# ---------------------------------------------------------------------------------------------------------
+# LimConc tier: middleware/ratelimit.LimiterStore with several clients inside Get at once
+# ---------------------------------------------------------------------------------------------------------
+LC_KEYS = [0, 0x1111111111111111, 0xFFFFFFFFFFFFFFFF]      # model keys 0..2 of the LimConc configs
+LC_MAXPROCS = 8                                            # Trace_LimConc.cfg
+
+
+def lc_groups(beh):
+    """One SpecBatched behaviour of MC_LimConc.tla -> groups of calls for TestLimConc.  A batch (conc) is the stretch
+    during which some client sits between RLook and WIns: the Gets begun meanwhile, each on its own goroutine."""
+    groups, batch, spill = [], None, []
+    prev = beh[0][1]
+    for _, st in beh[1:]:
+        o, ph = st["last"], st["ph"]
+        if o["op"] == "look":
+            op = {"op": "get", "p": 1, "k": o["k"]}
+        elif o["op"] == "get":
+            # a write-locked section (some client left `cl`) completes a Get that is already in the batch
+            op = None if st["cl"] != prev["cl"] else {"op": "get", "p": 1, "k": o["k"]}
+        elif o["op"] == "cleanup":
+            op = {"op": "cleanup", "p": 1, "k": o["k"]}
+        else:
+            raise vf.MachineryError("LimConc behaviour: unknown step %r" % (o,))
+        prev = st
+        if batch is None and ph != "open":
+            batch, spill = [], []
+        if batch is not None:
+            if op is not None:
+                if len(batch) < LC_MAXPROCS:
+                    op["p"] = len(batch) + 1
+                    batch.append(op)
+                else:
+                    spill.append({"conc": False, "ops": [op]})
+            if ph == "open":
+                groups.append({"conc": len(batch) > 1, "ops": batch})
+                groups += spill
+                batch = None
+            continue
+        if op is not None:
+            groups.append({"conc": False, "ops": [op]})
+    if batch:
+        groups.append({"conc": len(batch) > 1, "ops": batch})
+        groups += spill
+    return groups
+
+
+def limconc(ctx, thorough, prefix=""):
+    """LimConc.tla <-> the real LimiterStore under concurrent clients: exhaustive interleaving model (the code's
+    re-check under the write lock passes, the no-re-check mutant fails GetOrCreate and EvictsOnlyAtBound), TLC-chosen
+    batches forced on the real store through its own lock in both eviction regimes, the recorded histories judged
+    by Trace_LimConc.tla."""
+    from concurrent.futures import ThreadPoolExecutor
+    ctx.spec_dir("LimStore")
+
+    def mc(cfg, must):
+        return ctx.tlc("LimStore", "MC_LimConc.tla", cfg, workers=4, timeout=600, heap="3g", must_pass=must,
+                       count=must, tag=None if must else "mutant-must-fail")
+    with ThreadPoolExecutor(4) as ex:
+        fs = [ex.submit(mc, "MC_LimConc_exact.cfg", True), ex.submit(mc, "MC_LimConc_sampled.cfg", True),
+              ex.submit(mc, "MC_LimConc_norecheck.cfg", False), ex.submit(mc, "MC_LimConc_norecheck_evict.cfg", False)]
+        rs = [f.result() for f in fs]
+    for r, cfg, want in ((rs[2], "MC_LimConc_norecheck", "GetOrCreate"),
+                         (rs[3], "MC_LimConc_norecheck_evict", "EvictsOnlyAtBound")):
+        if r.violated != want:
+            raise vf.MachineryError("%s: expected %s to fail, got %r" % (cfg, want, r.violated))
+    trace = os.path.join(ctx.scratch, "limconc.ndjson")
+    totals = {}
+    nscripts = 0
+    with open(trace, "w") as allf:
+        for regime, fill in (("exact", 0), ("sampled", 1000)):
+            behs = ctx.tlc_behaviours("LimStore", "MC_LimConc.tla", "Sim_LimConc_%s.cfg" % regime,
+                                      num=120 if not thorough else 1500, depth=24, timeout=600)
+            seen, scripts = set(), []
+            for b in behs:
+                g = lc_groups(b)
+                k = json.dumps(g, sort_keys=True)
+                if g and k not in seen:
+                    seen.add(k)
+                    scripts.append(g)
+                    ctx._distinct.add("limconc:%s:%s" % (regime, k))
+            part = os.path.join(ctx.scratch, "limconc_%s.ndjson" % regime)
+            inp = {"regime": regime, "fill": fill, "room": 2, "keys": LC_KEYS, "behaviours": scripts, "traceOut": part}
+            res = ctx.go_driver("./c16", "TestLimConc", inp, name="limconc_" + regime, timeout=900)
+            ctx.take_driver_result(res, prefix + "[LimConc %s] " % regime)
+            if res.get("skipped"):
+                raise vf.MachineryError("LimConc %s: batches were not forced: %s" % (regime, res["skipped"][:3]))
+            c = res.get("counters", {})
+            # vacuity: clients really raced to create one key, below and at the bound
+            if c.get("batches_contended_creation", 0) < 20 or c.get("batches_contended_creation_at_bound", 0) < 5:
+                raise vf.MachineryError("LimConc %s: too few contended creations (%s): vacuous" % (regime, c))
+            for k, v in c.items():
+                totals[regime + "_" + k] = v
+            nscripts += len(scripts)
+            allf.write(open(part).read())
+    lines = open(trace).read().splitlines()
+    ok, r = ctx.tlc_trace("LimStore", "Trace_LimConc.tla", "Trace_LimConc.cfg", trace, timeout=1800, deque=False)
+    m = re.search(r'"limconc-high-water", (\d+), (\d+)', r.out)
+    if not m:
+        raise vf.MachineryError("Trace_LimConc did not reach its postcondition\n" + "\n".join(r.out.splitlines()[-30:]))
+    hw, total = int(m.group(1)), int(m.group(2))
+    info = {"behaviours": nscripts, "counters": totals, "lines": total, "explained": min(hw - 1, total) if hw else 0,
+            "tlc_states": r.distinct}
+    ctx.cov["replay"]["limconc"] = info
+    ctx.log("Trace_LimConc: %d of %d lines explained, %d states; %s" % (info["explained"], total, r.distinct, totals))
+    if ok:
+        ctx.cov["traces_validated_against_impl"] += nscripts
+        ctx.cov["evaluations"] += totals.get("exact_gets", 0) + totals.get("sampled_gets", 0)
+        # binding: a falsified observation must be rejected
+        objs = [json.loads(x) for x in lines]
+        for o in objs:
+            if o["t"] == "q" and any(o["store"]):
+                o["len"] -= 1
+                break
+        else:
+            raise vf.MachineryError("tamper test: no quiescent line with a mapped key in the history")
+        bad = os.path.join(ctx.scratch, "limconc_tampered.ndjson")
+        with open(bad, "w") as f:
+            for o in objs:
+                f.write(json.dumps(o) + "\n")
+        okb, _ = ctx.tlc_trace("LimStore", "Trace_LimConc.tla", "Trace_LimConc.cfg", bad, timeout=1800, deque=False)
+        if okb:
+            raise vf.MachineryError("tamper test: Trace_LimConc accepted a falsified history (binding lost)")
+        info["tamper_rejected"] = True
+        return
+    k = min(hw, total)
+    # the line that could not be consumed, and its round (rounds restart per regime: walk back to the reset line)
+    j = k - 1
+    while j > 0 and json.loads(lines[j])["t"] != "reset":
+        j -= 1
+    head = json.loads(lines[j])
+    e = j + 1
+    while e < total and json.loads(lines[e])["t"] != "reset":
+        e += 1
+    rlines = lines[j:e]
+    stuck = json.loads(lines[k - 1])
+    if stuck["t"] == "q":
+        what = ("with no call in flight the store maps %s (len %s, bound %s), which no order of the recorded Gets explains: "
+                "storing one key cost more than one resident entry, or a mapping changed without an eviction"
+                % (stuck.get("store"), stuck.get("len"), head.get("max")))
+        key = "limconc/quiescent"
+    elif stuck["t"] == "cleanup":
+        what = "Cleanup left the store mapping %s, which is not a sub-map of what it held" % (stuck.get("store"),)
+        key = "limconc/cleanup"
+    else:
+        # the Gets in flight around the stuck line, per key: who was handed what
+        by_key = {}
+        b0 = k - 1
+        while b0 > j and json.loads(lines[b0 - 1])["t"] in ("inv", "res"):
+            b0 -= 1
+        b1 = k - 1
+        while b1 < e and json.loads(lines[b1])["t"] in ("inv", "res"):
+            b1 += 1
+        for x in lines[b0:b1]:
+            o = json.loads(x)
+            if o["t"] == "inv":
+                by_key.setdefault(o["k"] - 1, set()).add(o["rid"])
+        split = ["key %d -> limiters %s" % (kk, sorted(v)) for kk, v in sorted(by_key.items()) if len(v) > 1]
+        what = ("the limiters handed out by concurrent Gets are not explained by any order of get-or-create on a map: "
+                "a client was handed a limiter its key does not yield%s" % ((" (" + "; ".join(split) + ")") if split else ""))
+        key = "limconc/get"
+    ctx.violation(key, "%s[LimConc %s] %s" % (prefix, head.get("kind"), what),
+                  {"driver": "limconc", "regime": head.get("kind"), "round": head.get("round"), "history": rlines,
+                   "seed": ctx.seed})
